@@ -435,6 +435,12 @@ func (lm *levelManager) compactL0() {
 		dataBlockIndex: dataBlockIndex,
 	}
 
+	// write new sstable first: the inputs may only go once the merged table is durable,
+	// otherwise a crash in between loses everything they held
+	if err := lm.writeTable(1, th.levelIdx, tableBytes); err != nil {
+		lm.logger.Panicf("failed to write sstable: %v", err)
+	}
+
 	// update index
 	// add new index to L1
 	lm.levels[1].PushBack(th)
@@ -459,11 +465,6 @@ func (lm *levelManager) compactL0() {
 		if err := os.Remove(lm.fileName(1, e.Value.(tableHandle).levelIdx)); err != nil {
 			lm.logger.Panicf("failed to delete old sstable: %v", err)
 		}
-	}
-
-	// write new sstable
-	if err := lm.writeTable(1, th.levelIdx, tableBytes); err != nil {
-		lm.logger.Panicf("failed to write sstable: %v", err)
 	}
 }
 
@@ -511,6 +512,11 @@ func (lm *levelManager) compactLN(n int) {
 		dataBlockIndex: dataBlockIndex,
 	}
 
+	// write new sstable first: the inputs may only go once the merged table is durable
+	if err := lm.writeTable(n+1, th.levelIdx, tableBytes); err != nil {
+		lm.logger.Panicf("failed to write sstable: %v", err)
+	}
+
 	// update index
 	// add new index to LN+1
 	lm.levels[n+1].PushBack(th)
@@ -531,11 +537,6 @@ func (lm *levelManager) compactLN(n int) {
 		if err := os.Remove(lm.fileName(n+1, e.Value.(tableHandle).levelIdx)); err != nil {
 			lm.logger.Panicf("failed to delete old sstable: %v", err)
 		}
-	}
-
-	// write new sstable
-	if err := lm.writeTable(n+1, th.levelIdx, tableBytes); err != nil {
-		lm.logger.Panicf("failed to write sstable: %v", err)
 	}
 }
 
